@@ -4,6 +4,7 @@ CONSTANTS
   TextSyms = {"a", "b"}
   MaxP = 4
   MaxT = 6
+  MaxL = 2
   Dev = {}
 SPECIFICATION Spec
 INVARIANTS AlgoCorrect Bounded
